@@ -230,10 +230,17 @@ func (r *c05sort) Exec(op []string) string {
 
 func genC05sort(g *G) {
 	cases := g.Scale(1500, 40000)
+	big := []int{255, 256, 300, 1000} // a few LARGE inputs: size-dependent paths (buffer policies, deep heaps)
+	if g.Thorough() {
+		big = append(big, 2048, 4096, 10000)
+	}
 	for c := 0; c < cases; c++ {
 		n := g.Intn(g.Scale(40, 200))
 		if g.Chance(1, 4) {
 			n = g.Intn(5)
+		}
+		if c < len(big) {
+			n = big[c]
 		}
 		keys := 1 + g.Intn(n+3)
 		vs := make([]string, n)
